@@ -143,6 +143,7 @@ func (r *Rand) U64() uint64 {
 	z = (z ^ (z >> 27)) * 0x94D049BB133111EB
 	return z ^ (z >> 31)
 }
+func (r *Rand) Clone() *Rand { c := *r; return &c }
 func (r *Rand) Intn(n int) int {
 	if n <= 0 {
 		return 0
